@@ -406,10 +406,35 @@ def flatten_cond(test: ast.expr, pol: bool) -> list[tuple[str, bool]]:
             for v in test.values:
                 out += flatten_cond(v, pol)
             return out
-        return [("(" + norm(test) + ")", pol)]
+        # not splittable: a disjunction that holds (`a or b` true, or `a and b` false = `not a or not b`).  One canonical
+        # form - a positive disjunction of canonical operands - so that De Morgan rewrites give the same atom
+        return [(_disjunction(test.values, pol, None), True)] if _CANON_DISJ else [("(" + norm(test) + ")", pol)]
     if isinstance(test, ast.Compare) and len(test.ops) == 1:
         return [cmp_atom(test.left, test.ops[0], test.comparators[0], pol)]
     return [(norm(test), pol)]
+
+
+_CANON_DISJ = True
+
+
+def _operand_text(v, pol, expand) -> str:
+    """canonical text of one operand that has to hold with polarity `pol`"""
+    if isinstance(v, ast.UnaryOp) and isinstance(v.op, ast.Not):
+        return _operand_text(v.operand, not pol, expand)
+    if isinstance(v, ast.BoolOp):
+        if (isinstance(v.op, ast.Or) and pol) or (isinstance(v.op, ast.And) and not pol):
+            return _disjunction(v.values, pol, expand)
+        # a conjunction that holds
+        return "(" + " and ".join(_operand_text(x, pol, expand) for x in v.values) + ")"
+    if isinstance(v, ast.Compare) and len(v.ops) == 1:
+        t, p = cmp_atom(v.left, v.ops[0], v.comparators[0], pol, expand)
+        return t if p else "not " + t
+    t = expand(v) if expand else norm(v)
+    return t if pol else "not " + t
+
+
+def _disjunction(values, pol, expand) -> str:
+    return "(" + " or ".join(_operand_text(x, pol, expand) for x in values) + ")"
 
 
 def cmp_atom(left, op, right, pol=True, expand: Optional[Callable] = None) -> tuple[str, bool]:
@@ -442,6 +467,9 @@ def atoms_of(test: ast.expr, pol: bool = True, expand=None) -> list[tuple[str, b
             return
         if isinstance(t, ast.Compare) and len(t.ops) == 1:
             out.append(cmp_atom(t.left, t.ops[0], t.comparators[0], p, expand))
+            return
+        if isinstance(t, ast.BoolOp) and _CANON_DISJ:
+            out.append((_disjunction(t.values, p, expand), True))
             return
         txt = expand(t)
         if isinstance(t, ast.BoolOp):
